@@ -21,7 +21,7 @@ RULE = ("worlds with three-phase mixed-sign constraint matrices (1-6 constraints
         "distinct phase angles; distinct = history signature + probe pattern")
 PROBES = ["probe", "concurrent_callers", "negative_limit_probe", "algorithm_side_default_tolerances", "creeping_schedule_probe", "non_finite_entry_probe", "probe_within_2tol_mixed_sign", "explicit_tolerances", "rel_tol_dominates", "linear_probe", "multi_period",
           "negative_entries", "one_dim_vector", "constraint_free_world", "constraint_free_sorted_completed", "dict_omitted_rows",
-          "executed_columns_checked", "invalid_schedule_warning_seen", "probe_after_reconfig", "exact_boundary_probe",
+          "executed_columns_checked", "invalid_schedule_warning_seen", "probe_after_reconfig", "exact_boundary_probe", "tolerances_retuned_between_questions", "infrastructure_description_edited_and_asked_again",
           "exactly_at_limit_plus_tol", "exact_linear_probe"]
 FAULT_DIMENSION = ("environment fault only: the operator changes a constraint limit between two periods (all three checkers must "
                    "follow); otherwise state/message distribution (pure function); probes are messages the party sends during a run")
@@ -206,6 +206,67 @@ def probe_once(out, sc, nw, iface, r, tag, cons):
             if v != want:
                 out.add("C06/%s_vs_phasor" % kk, "%s: %s check says %s, phasor definition says %s (margin %.3e A on constraint %d, k=%s, vt=%g rt=%g, T=%d)"
                         % (tag, kk, v, want, m, j, k, vt, rt, T))
+                return
+    # the operator re-tunes the network's own tolerances (public attributes) between two questions; questions that name no
+    # tolerance are answered with the values in force at that moment
+    rtn = sub(sc["seed"], "retune", tag, T)
+    if not explicit and rtn.random() < 0.15:
+        vt2 = rtn.choice([x_ for x_ in (0.0, 1e-6, 1e-3, 0.5, 2.0) if x_ != vt])
+        rt2 = rtn.choice([x_ for x_ in (0.0, 1e-6, 1e-3, 0.05) if x_ != rt])
+        k2 = rtn.choice(KS)
+        g2 = phasor.max_scale(cons, phases, D, vt2, rt2, k2)
+        if g2 is not None:
+            M2 = [[g2 * x for x in row] for row in D]
+            m2, w2 = phasor.margins(cons, phases, M2, vt2, rt2)
+            old_ = (nw.violation_tolerance, nw.relative_tolerance)
+            try:
+                nw.violation_tolerance, nw.relative_tolerance = vt2, rt2
+                A2 = np.array(M2, dtype=float)
+                res2 = {"network": bool(nw.is_feasible(A2)), "interface": bool(iface.is_feasible({ids[i]: list(M2[i]) for i in range(N)})),
+                        "algorithm": bool(sut.algo_utils.infrastructure_constraints_feasible(A2, iface.infrastructure_info(), False, vt2, rt2))}
+            finally:
+                nw.violation_tolerance, nw.relative_tolerance = old_
+            out.probe("tolerances_retuned_between_questions")
+            if abs(m2) >= 1e-9 * max(1.0, cons[w2[0]][1]):
+                for kk, v in res2.items():
+                    if v != (m2 >= 0):
+                        out.add("C06/%s_vs_phasor" % kk, "%s: after the network's tolerances were set to vt=%g rt=%g (were %g / %g): %s check says %s, phasor definition "
+                                "says %s (margin %.3e A on constraint %d, k=%s)" % (tag, vt2, rt2, vt, rt, kk, v, m2 >= 0, m2, w2[0], k2))
+                        return
+    # the owner of an infrastructure description edits it in place (a what-if study: another limit, another coefficient, a
+    # station moved to another phase) and asks the algorithm-side checker again about the same object
+    rwi = sub(sc["seed"], "whatif", tag, T)
+    if rwi.random() < 0.15:
+        mine = iface.infrastructure_info()
+        sut.algo_utils.infrastructure_constraints_feasible(A, mine, False, vt, rt)          # (first question, same object)
+        cons3 = [(list(rowc), lim) for rowc, lim in cons]
+        ph3 = list(phases)
+        how3 = rwi.choice(["limit", "coefficient", "phase"])
+        j3 = rwi.randrange(len(cons3))
+        members3 = [i for i, c in enumerate(cons3[j3][0]) if c]
+        if how3 == "limit":
+            f3 = rwi.choice([0.5, 0.8, 1.5, 3.0])
+            mine.constraint_limits[j3] = cons3[j3][1] * f3
+            cons3[j3] = (cons3[j3][0], float(mine.constraint_limits[j3]))     # (read back: what the array holds, whatever its dtype)
+        elif how3 == "coefficient" and members3:
+            i3 = rwi.choice(members3)
+            c3 = rwi.choice([-1.0, 2.0, 0.5, -0.25])
+            mine.constraint_matrix[j3, i3] = c3
+            cons3[j3][0][i3] = float(mine.constraint_matrix[j3, i3])
+        elif members3:
+            i3 = rwi.choice(members3)
+            p3 = rwi.choice([x_ for x_ in (30.0, -90.0, 150.0, 0.0) if x_ != ph3[i3]])
+            mine.phases[i3] = p3
+            ph3[i3] = float(mine.phases[i3])
+        g3 = phasor.max_scale(cons3, ph3, D, vt, rt, rwi.choice(KS))
+        if g3 is not None:
+            M3 = [[g3 * x for x in row] for row in D]
+            m3, w3 = phasor.margins(cons3, ph3, M3, vt, rt)
+            got3 = bool(sut.algo_utils.infrastructure_constraints_feasible(np.array(M3, dtype=float), mine, False, vt, rt))
+            out.probe("infrastructure_description_edited_and_asked_again")
+            if abs(m3) >= 1e-9 * max(1.0, cons3[w3[0]][1]) and got3 != (m3 >= 0):
+                out.add("C06/algorithm_vs_phasor", "%s: the caller edited its own InfrastructureInfo in place (%s of constraint %d) after a first question and asked again: "
+                        "algorithm-side check says %s, phasor definition on the edited description says %s (margin %.3e A)" % (tag, how3, j3, got3, m3 >= 0, m3))
                 return
     # a schedule with a non-finite entry (0/0 or x/0 in a scheduler's arithmetic) at a station that takes part in a
     # constraint: its aggregate is not 'at most the limit plus tolerance', so no checker may call it feasible
